@@ -32,6 +32,17 @@ class StubConnection:
         self.sent.append(("get", f"{subunit}", funcname))
         self.num_commands_sent += 1
 
+    def __getattr__(self, name):
+        # the seam the repository's own tests use is a MagicMock: members a refactoring adds to the connection's interface exist there and
+        # do nothing; the same here (recorded, so that a check can look at them), instead of an AttributeError inside the harness
+        if name.startswith("__"):
+            raise AttributeError(name)
+
+        def other(*a, **k):
+            self.__dict__.setdefault("other_calls", []).append((name, a, k))
+            return None
+        return other
+
     def deliver(self, status, subunit, function, value):
         for cb in list(self.callbacks):
             cb(status, subunit, function, value)
